@@ -22,6 +22,7 @@ class HarnessResult:
         self.total_checks = 0
         self.stubs = []
         self.kind = ""
+        self.covers = 0
 
     @property
     def short(self):
@@ -69,7 +70,14 @@ def build_and_verify(crate, filters, jobs=None, harness_timeout=600, wall_timeou
         checks = r_.get("checks", [])
         r.total_checks = len(checks)
         bad = [c for c in checks if c.get("status") not in ("Success", "Unreachable", "Satisfied", "Unsatisfiable", "Covered", "Uncovered")]
-        if r_["status"] == "Success":
+        covers = [c for c in checks if c.get("status") in ("Satisfied", "Unsatisfiable") or c.get("category") == "cover"]
+        r.covers = len(covers)
+        vac = [c for c in covers if c.get("status") != "Satisfied"]
+        if vac:
+            # vacuity guard: a `kani::cover!` that cannot be reached means the assumptions exclude everything
+            r.status = "undecided"
+            r.reason = "vacuous harness: cover not satisfiable: " + "; ".join((c.get("description") or "")[:80] for c in vac[:3])
+        elif r_["status"] == "Success":
             r.status = "success"
         elif not checks:
             r.status = "undecided"
